@@ -21,6 +21,7 @@ RULE = ("dimers and trimers with two-exciton states, site energies 11500-12700 1
         "|d| in [0.3, 3] (every third system with one weak transition, |d| in [0.01, 0.05]); uncoupled molecules with exactly equal transition energies and different Gaussian widths; polarisation 4-tuples XXXX, XXYY, XYXY, magic-angle-like and random (unit and non-unit) oblique ones; random proper rotations and "
         "scale factors 0.01-30 (log-uniform). distinct = (class, N, polarisation class, rounded parameters); non-trivial iff at least 4 pathways were built and the response is non-zero.")
 RULE = RULE + " Round-6 workloads: for waiting times > 0 the pathways are also generated with the complete evolution superoperator passed directly and compared with those from the superoperator at t2."
+RULE = RULE + " Round-7 workloads: every response is normalised by its maximum (read, devide_by) and read again."
 ASSUMPTIONS = ["the calculator's default dtol = 1e-12 (the pathway filter compares |d|^2 with |d|_max * dtol; with that default it cannot remove a transition of the generated systems at any generated scale)",
                "responses are compared at 1e-9 of their maximum (metamorphic pairs of real runs)"]
 MIN_NONTRIVIAL = {"quick": 25, "thorough": 300}
